@@ -41,7 +41,7 @@ MINIMUMS = {
     "thorough": {"distinct_nontrivial": 120000, "assignments": 300000, "conforming_accepted": 90000, "ill_typed_rejected": 70000, "removal_cases": 20000, "removal:list": 1500, "removal:dict": 1500, "removal:direct": 3000, "removal_normal_mode": 5000},
 }
 N = {"quick": (48000, 4000), "thorough": (1200000, 100000)}
-TIMEOUT = {"quick": 900, "thorough": 10800}
+TIMEOUT = {"quick": 2400, "thorough": 14400}
 
 _DYN = None
 _CLASSES = {}
